@@ -4,6 +4,7 @@
 import Gmars.Model.Compile
 import Gmars.Spec.Program
 import Gmars.Proofs.ExprProofs
+import Gmars.Proofs.AsmEqu
 
 namespace Gmars.Props.C07
 open Gmars
@@ -47,7 +48,30 @@ theorem model_agrees_with_reference (c : CST) (hw : WFprec c) (hb : NoBigLit c) 
       | none => .err :=
   ExprProofs.model_agrees_with_reference c hw hb
 
+open AsmLine in
+/-- `assert_decision` — a program is rejected exactly when one of its ;assert conditions evaluates
+    to zero (or cannot be evaluated): if every assert has a non-zero reference value the assert
+    stage passes; if some assert is zero or undefined the assembler returns an error -/
+theorem assert_decision (lexTokens : String → List Token) (cfg : Config) (sc : Spec.Cfg)
+    (prog : List XItem) (ameta : AsmMeta) (d : String → Nat)
+    (hv : cfg.validate = true) (h63 : cfg.coreSize.toNat < 2 ^ 63) (hr : CfgRel cfg sc)
+    (hnd : ((xlabelsFrom 0 prog).map (·.1) ++ (xequs prog).map (·.1) ++ constNames).Nodup)
+    (hsmall : xinstrCount prog < 2 ^ 63)
+    (hrk : ERanked (xequs prog ++ Spec.predefined sc) d) (hlt : ∀ s, d s < 63)
+    (hw : XProgWF lexTokens sc (xtables sc prog) 0 prog) :
+    ((∀ cm e, XItem.assert cm e ∈ prog →
+        ∃ v, Spec.evalAt sc (xtables sc prog) 0 e = some v ∧ v ≠ 0) →
+      Compile.evaluateAssertions lexTokens (Compile.symC cfg (xrender 0 prog)) (xrender 0 prog) = .ok ()) ∧
+    ((∃ cm e, XItem.assert cm e ∈ prog ∧
+        (Spec.evalAt sc (xtables sc prog) 0 e = none ∨ Spec.evalAt sc (xtables sc prog) 0 e = some 0)) →
+      Compile.evaluateAssertions lexTokens (Compile.symC cfg (xrender 0 prog)) (xrender 0 prog) = .error .goErr ∧
+      compile lexTokens cfg (xrender 0 prog) ameta = .ok none) :=
+  AsmLine.assert_decision lexTokens cfg sc prog ameta d hv h63 hr hnd hsmall hrk hlt hw
+
 /-
+  `field_mod` (the assembled field is the value reduced into [0, M)) is part of
+  `Props.C03.compile_meaning_equ`: `Spec.instrMeaning` stores `Spec.reduce M v`.
+
   Trusted here: `GoEval` is an executable MODEL of go/types.Eval (scanner with maximal munch,
   precedence climbing, exact constant arithmetic); it is validated against the real evaluator by
   the `evalraw` correspondence domain on every run, not verified.
